@@ -291,6 +291,44 @@ def work_after_crash(chunk, st):
     st.sample({'after_crashed_target': [list(x) for x in chunk[:2]]}, cap=3)
 
 
+# ---- debug output switched on (-d): the progress and debug messages go to stdout as they happen, the REPORT of each target still comes
+# in that target's own block - under every order in which the main thread gets round to collecting the finished targets
+def _report_lines(block):
+    return [l.rstrip() for l in block.split('\n') if l.startswith('(') or l.startswith('# ')]
+
+
+def work_debug(chunk, st):
+    for archs, threads in chunk:
+        def once(prefix):
+            res, s = MT.run_multi(list(archs), threads, 'text', prefix, ('connect',), extra=['-d'])
+            return (res, s), s.points
+        n = 0
+        for prefix, (res, s), _points in sched.explore_schedules(once, 1, 300):
+            n += 1
+            root = ('debug', archs, threads, tuple(prefix))
+            st.execution(res.world, outcome=('debug', res.status, len(prefix)), root=root, nontrivial=root)
+            d = {'archs': list(archs), 'threads': threads, 'schedule': list(prefix), 'status': res.status}
+            if res.hang or res.exc:
+                st.violation('debug-output:hang-or-exception', dict(d, hang=res.hang, exc=res.exc))
+                continue
+            blocks = report.split_targets(res.stdout)
+            if len(blocks) != len(archs):
+                st.violation('debug-output:block-count', dict(d, got=len(blocks)))
+                continue
+            for b in blocks:
+                lines = _report_lines(b)
+                labels = [l for l in lines if l.startswith('(gen) target:')]
+                if len(labels) != 1:
+                    st.violation('debug-output:block-holds-%d-reports' % len(labels), dict(d, labels=labels))
+                    continue
+                pos = MT.block_host(labels[0])
+                ref = MT.run_single(archs[pos], pos, 'text', None, extra=('-d',))
+                want = _report_lines(report.split_targets(ref.stdout)[0])
+                if lines != want:
+                    st.violation('debug-output:report-differs-from-single-run', dict(d, target=archs[pos], diff=_text_diff('\n'.join(lines), '\n'.join(want))))
+        st.sample({'debug_lists': list(archs), 'threads': threads, 'schedules': n}, cap=3)
+
+
 # ---- the group-exchange modulus test (-g / --gex-test) over several targets: what is listed for one target is what that target hands out
 GEXTEST_ARCHS = ['GEX1024', 'GEX4096', 'GEXFALLBACK', 'GEX2048OPENSSH', 'GEXREFUSED', 'TERR']
 GEXTEST_SPECS = ['2048', '1024,2048,4096', '2048:4096:1024']
@@ -378,6 +416,7 @@ def run(tier, seed):
     firsts = ['RSA1024', 'GEX1024', 'TERR', 'CERTSMALLCA']
     seconds = ['CLEAN', 'RSA4096', 'GEX4096', 'MARK', 'RSA1024'] if tier == 'quick' else ARCHS
     par.pmap(work_after_crash, [(a, b, f) for a in firsts for b in seconds if b != 'SSH1' for f in ('text', 'json')], stats=st, chunk=2)
+    par.pmap(work_debug, [(a, th) for a in (('TERR', 'CLEAN'), ('CLEAN', 'TERR'), ('RSA1024', 'MARK', 'CLEAN'), ('GEX1024', 'CLEAN')) for th in (1, 2)], stats=st, chunk=1)
     par.pmap(work_gextest, [(a, b, sp, f) for a in GEXTEST_ARCHS for b in GEXTEST_ARCHS for sp in GEXTEST_SPECS for f in ('text', 'json')], stats=st, chunk=4)
     lines = [('ssh2_kexdb', 2, 2), ('ssh1_kexdb', 2, 2)] if tier == 'quick' else [('ssh2_kexdb', 2, 3), ('ssh1_kexdb', 2, 3), ('ssh2_kexdb', 3, 2), ('ssh1_kexdb', 3, 2)]
     par.pmap(work_lines, lines, stats=st, chunk=1)
